@@ -264,19 +264,26 @@ func (ex *Exec) chooseSched(n int) int {
 	ex.schedSeq++
 	ex.stats.SchedDecisions++
 	v := ex.input("sched#"+itoa(ex.schedSeq), 8)
-	if !v.IsConst() {
-		ex.assume(ex.ctx.ULT(v, ex.ctx.BV(8, uint64(n))))
-	}
-	k := int(ex.Concretize(v, n+1))
-	if k >= n {
-		k = n - 1
+	var k int
+	if v.IsConst() {
+		// replay: the decision is pinned by the replay file
+		k = int(v.Val)
+		if k >= n {
+			k = n - 1
+		}
+	} else {
+		// a fresh variable whose only constraint is v < n: every value 0..n-1 is feasible by
+		// construction, so the alternatives are forked without asking the solver to enumerate
+		// them; each branch asserts v == k, so the path condition (and any counterexample's
+		// model) carries the schedule
+		k = ex.Choose(n)
+		ex.assumeTerm(ex.ctx.Eq(v, ex.ctx.BV(8, uint64(k))))
 	}
 	if debugSched {
 		fmt.Fprintf(os.Stderr, "SCHED #%d n=%d -> %d const=%v at %s\n", ex.schedSeq, n, k, v.IsConst(), ex.whereShort())
 	}
 	return k
 }
-
 func (ex *Exec) lookupMethodByName(t types.Type, name string) *ssa.Function {
 	ms := ex.prog.MethodSets.MethodSet(t)
 	for i := 0; i < ms.Len(); i++ {
